@@ -40,7 +40,7 @@ UnOps == {"-", "+", "!", "*", "^", "count", "single", "=>", ">>", ":>", "nest", 
           "interp", "interpfmt", "bytesof", "let", "letpat", "cond", "condpat", "fnof", "rel1", "relwith"}
 Toks == {"1", "a", "\"s\"", "(", ")", "[", "]", "{", "}", ",", ":", ";", ".", "...", "\\", "//", "|", "&", "+", "-",
          "*", "/", "%", "<", ">", "=", "!", "?", "@", "$\"", "${", "\"", "<<", ">>", "let", "cond", "_", "->", "=>",
-         "{|", "|}", "{:", ":}", "^", "~", "'", "rec", "nest", "where", "//{./f}", "//{./bad}", "%a", "0x"}
+         "{|", "|}", "{:", ":}", "^", "~", "'", "rec", "nest", "where", "//{./f}", "//{./bad}", "%a", "0x", "\"\\101\"", "\"\\777\"", "%\\101"}
 Seqs(A, n) == UNION {[1..k -> A] : k \in 1..n}
 
 Cases == CASE Mode = "bin" -> {[k |-> "bin", op |-> o, a |-> x, b |-> y] : o \in BinOps, x \in Kinds, y \in Kinds}
